@@ -1,6 +1,6 @@
 (* Latch/ProofsThm.v — the C17 statements derived from the invariant of reachable states. *)
 From Coq Require Import NArith List Bool Arith Lia Sorting.Sorted.
-From Verif Require Import Latch.Model Latch.ProofsOps Latch.ProofsBase Latch.ProofsInv Latch.ProofsAcq Latch.ProofsRel Latch.ProofsSys.
+From Verif Require Import Latch.Model Latch.ProofsOps Latch.ProofsBase Latch.ProofsInv Latch.ProofsAcq Latch.ProofsRel Latch.ProofsSys Latch.ProofsLive.
 Import ListNotations.
 
 Section Thm.
@@ -182,6 +182,59 @@ Proof.
   specialize (M3 h SH PH). unfold f in M3. rewrite K, KH in M3. lia.
 Qed.
 
+(* runs of the automaton *)
+Fixpoint run (tr : list label) (s : state) : option state :=
+  match tr with
+  | [] => Some s
+  | l :: r => match exec sf ns s l with Some s' => run r s' | None => None end
+  end.
+Lemma run_reach tr : forall s s', reach s -> Forall (allowed (@NoDup key)) tr -> run tr s = Some s' -> reach s'.
+Proof.
+  induction tr as [|l tr IH]; simpl; intros s s' R F E.
+  - inversion E; subst; auto.
+  - inversion F; subst. destruct (exec sf ns s l) as [s1|] eqn:X; [|discriminate].
+    apply (IH s1 s'); auto. eapply r_step; eauto.
+Qed.
+
+(* ---------- liveness: every schedule of client / scheduler steps stops, and where it stops nothing is held ---------- *)
+(* no step of a client thread (acquire, UnLock of a returned lock) or of run() is enabled *)
+Definition stuck (s : state) : Prop := forall l s', exec sf ns s l = Some s' -> ~ progress_label l.
+
+Lemma stuck_quiescent s : stuck s -> quiescent s.
+Proof. intros S l s' E. specialize (S l s' E). destruct l; simpl in *; auto; exfalso; apply S; exact I. Qed.
+
+Lemma no_latch_held s : reach s -> closed (gl s) = false -> stuck s ->
+  (forall i, pc s i = TNew \/ pc s i = TRel) /\ (forall k, holderK (lat s) k = None) /\ (forall sl, waitS (lat s) sl = []).
+Proof.
+  intros R NC S. pose proof (no_deadlock s R NC (stuck_quiescent s S)) as A.
+  destruct (distinct_Inv s R) as [[I _] _]. split; auto. split.
+  - intros k. destruct (holderK (lat s) k) as [h|] eqn:H; auto. exfalso.
+    apply (i_hold _ _ _ _ _ _ _ _ I) in H.
+    assert (Z : lacq (locks (lat s) h) = 0).
+    { pose proof (i_role _ _ _ _ _ _ _ _ I h) as X. pose proof (role_of_pc s h) as Y.
+      destruct (A h) as [P|P]; rewrite P in Y; rewrite Y in X; tauto. }
+    unfold held in H. rewrite Z in H. destruct H.
+  - intros sl. destruct (waitS (lat s) sl) as [|w r] eqn:W; auto. exfalso.
+    assert (X : In w (waitS (lat s) sl)) by (rewrite W; left; auto).
+    destruct (i_wait _ _ _ _ _ _ _ _ I _ _ X) as (RW & _). apply vrole_wait in RW. destruct RW as [P _].
+    destruct (A w); congruence.
+Qed.
+
+Lemma progress_allowed l : progress_label l -> allowed anyk l.
+Proof. destruct l; simpl; auto; intros []. Qed.
+
+(* termination: a run of client / scheduler steps from a reachable state has at most [pot s] steps *)
+Lemma bounded_runs tr : forall s s', reach_any s -> Forall progress_label tr -> run tr s = Some s' ->
+  length tr + pot s' <= pot s /\ reach_any s'.
+Proof.
+  induction tr as [|l tr IH]; simpl; intros s s' R F E.
+  - inversion E; subst. split; [lia | auto].
+  - inversion F; subst. destruct (exec sf ns s l) as [s1|] eqn:X; [|discriminate].
+    assert (R1 : reach_any s1) by (eapply r_step; eauto; apply progress_allowed; auto).
+    destruct (IH s1 s' R1 H2 E) as [B R'].
+    pose proof (pot_step sf ns anyk s l s1 (any_Inv s R) X H1). split; [lia | auto].
+Qed.
+
 (* Lock() never reaches its panic("should never run here"): when it returns the lock is stale or complete *)
 Lemma lock_returns_ok s i : reach_any s -> pc s i = TDone ->
   lstale (locks (lat s) i) = true \/ lacq (locks (lat s) i) = length (lkeys (locks (lat s) i)).
@@ -210,20 +263,6 @@ Proof.
       match goal with H : (length (chan s) <? lock_chan_size) = true |- _ => apply Nat.ltb_lt in H; lia end.
     + simpl in IH; lia.
     + simpl in IH; lia.
-Qed.
-
-(* runs of the automaton *)
-Fixpoint run (tr : list label) (s : state) : option state :=
-  match tr with
-  | [] => Some s
-  | l :: r => match exec sf ns s l with Some s' => run r s' | None => None end
-  end.
-Lemma run_reach tr : forall s s', reach s -> Forall (allowed (@NoDup key)) tr -> run tr s = Some s' -> reach s'.
-Proof.
-  induction tr as [|l tr IH]; simpl; intros s s' R F E.
-  - inversion E; subst; auto.
-  - inversion F; subst. destruct (exec sf ns s l) as [s1|] eqn:X; [|discriminate].
-    apply (IH s1 s'); auto. eapply r_step; eauto.
 Qed.
 
 (* ---------- the composite acquire() is the iteration of the atomic LAcq steps ---------- *)
@@ -288,6 +327,79 @@ Proof.
   pose proof (i_role _ _ _ _ _ _ _ _ I i) as X. pose proof (role_of_pc s i) as Y. rewrite P in Y. rewrite Y in X.
   destruct X as [S LT]. unfold acquire in A. rewrite S in A.
   apply (acquire_loop_refines i L' r (length (lkeys (locks (lat s) i))) s P LT); [lia | exact A].
+Qed.
+
+(* ---------- the composite release() is the iteration of the atomic LRel steps ---------- *)
+Lemma release_step_facts s i wl L1 r1 : reach_any s -> sch s = SRel i wl -> release_slot sf (lat s) i = (L1, r1) ->
+  r1 <> RPanic /\ S (lacq (locks L1 i)) = lacq (locks (lat s) i).
+Proof.
+  intros R SC RS. destruct (any_Inv s R) as [[I _] _]. rewrite SC in I. simpl in I.
+  destruct (i_rel _ _ _ _ _ _ _ _ I i eq_refl) as (RI & NC & POS).
+  destruct (lacq (locks (lat s) i)) as [|a] eqn:AQ; [lia|].
+  assert (exists k, nth_error (lkeys (locks (lat s) i)) a = Some k) as [k K].
+  { destruct (nth_error (lkeys (locks (lat s) i)) a) eqn:E; eauto. apply nth_error_None in E.
+    pose proof (i_acq _ _ _ _ _ _ _ _ I i). lia. }
+  destruct (rel_pre_facts sf _ _ _ _ _ _ _ _ _ I AQ K) as (_ & _ & HK & _ & _ & NIW & _).
+  destruct (release_slot_spec sf _ _ _ _ _ _ AQ K HK RS (i_q _ _ _ _ _ _ _ _ I)) as (EF & _).
+  inversion EF as [l1 _ _ _ LL | w rest l1 m WIN _ _ _ _ _ ST NST]; subst.
+  - split; [discriminate|]. rewrite LL. unfold l1, upd_lock. rewrite Nat.eqb_refl. reflexivity.
+  - split; [discriminate|]. assert (WI : w <> i) by (intros ->; eapply NIW; eauto).
+    destruct (N.lt_ge_cases (lstart (l1 w)) m) as [LT|GE].
+    + destruct (ST LT) as [_ LL]. rewrite LL. unfold upd_lock. destruct (Nat.eqb_spec i w); [congruence|].
+      unfold l1, upd_lock. rewrite Nat.eqb_refl. reflexivity.
+    + destruct (NST GE) as [_ LL]. rewrite LL. unfold l1, upd_lock. rewrite Nat.eqb_refl. reflexivity.
+Qed.
+
+Lemma release_loop_refines i L' : forall fuel s wl0 wacc wl pan,
+  reach_any s -> sch s = SRel i wl0 -> lacq (locks (lat s) i) <= fuel ->
+  release_loop sf fuel (lat s) i wacc = (L', wl, pan) ->
+  pan = false /\ exists n s' new, wl = wacc ++ new /\ run (repeat LRel (S n)) s = Some s' /\ lat s' = L' /\
+    sch s' = next_sch (wl0 ++ new) /\ pc s' i = TRel /\ chan s' = chan s /\ gl s' = gl s.
+Proof.
+  induction fuel as [|f IH]; intros s wl0 wacc wl pan R SC FU A.
+  - exfalso. destruct (any_Inv s R) as [[I _] _]. rewrite SC in I. simpl in I.
+    destruct (i_rel _ _ _ _ _ _ _ _ I i eq_refl) as (_ & _ & POS). lia.
+  - simpl in A. destruct (release_slot sf (lat s) i) as [L1 r1] eqn:RS.
+    destruct (release_step_facts s i wl0 L1 r1 R SC RS) as [NP LA].
+    destruct (lacq (locks (lat s) i)) as [|a] eqn:AQ; [discriminate|]. inversion LA as [LA']. clear LA.
+    set (wl1 := match r1 with RWake w => wl0 ++ [w] | _ => wl0 end).
+    set (wacc1 := match r1 with RWake w => wacc ++ [w] | _ => wacc end).
+    assert (A1 : release_loop sf f L1 i wacc1 = (L', wl, pan)) by (unfold wacc1; destruct r1; auto; contradiction).
+    assert (EXS : exists s1, exec sf ns s LRel = Some s1 /\ lat s1 = L1 /\ chan s1 = chan s /\ gl s1 = gl s /\
+              (a = 0 -> sch s1 = next_sch wl1 /\ pc s1 i = TRel) /\ (a <> 0 -> sch s1 = SRel i wl1)).
+    { simpl. rewrite SC, RS, LA'. fold wl1. destruct r1; try contradiction;
+        (destruct a; eexists; (split; [reflexivity|]); simpl; repeat split; auto; try (intros; congruence);
+         try (intros; unfold set_pc; rewrite Nat.eqb_refl; reflexivity); try lia). }
+    destruct EXS as (s1 & E1 & L1E & C1 & G1 & Z0 & ZS).
+    assert (R1 : reach_any s1) by (eapply r_step; eauto; exact Logic.I).
+    assert (NEW : exists new1, wacc1 = wacc ++ new1 /\ wl1 = wl0 ++ new1).
+    { unfold wacc1, wl1. destruct r1; [exists [] | exists [w] | exists []]; rewrite ?app_nil_r; auto. }
+    destruct NEW as (new1 & NW1 & NW2).
+    destruct a.
+    + destruct (Z0 eq_refl) as [S1 P1].
+      assert (E : (L', wl, pan) = (L1, wacc1, false)).
+      { rewrite <- A1. destruct f; simpl; [reflexivity | rewrite LA'; reflexivity]. }
+      inversion E; subst L' wl pan. split; auto. exists 0, s1, new1. cbn [run repeat]. rewrite E1.
+      repeat split; auto. rewrite S1, NW2. reflexivity.
+    + rewrite <- L1E in A1.
+      destruct (IH s1 wl1 wacc1 wl pan R1 (ZS ltac:(discriminate)) ltac:(rewrite L1E, LA'; lia) A1)
+        as (PF & n & s' & new & W & RN & LE & SE & PE & CE & GE).
+      split; auto. exists (S n), s', (new1 ++ new). change (repeat LRel (S (S n))) with (LRel :: repeat LRel (S n)).
+      cbn [run]. rewrite E1. repeat split; auto.
+      * rewrite W, NW1, app_assoc. reflexivity.
+      * rewrite SE, NW2, app_assoc. reflexivity.
+      * congruence.
+      * congruence.
+Qed.
+
+(* run(): the result of the composite release on the lock just received is reached by iterating LRel *)
+Lemma release_refines s i L' wl pan : reach_any s -> sch s = SRel i [] -> release sf (lat s) i = (L', wl, pan) ->
+  pan = false /\ exists n s', run (repeat LRel (S n)) s = Some s' /\ lat s' = L' /\ sch s' = next_sch wl /\
+    pc s' i = TRel /\ chan s' = chan s /\ gl s' = gl s.
+Proof.
+  intros R SC A. unfold release in A.
+  destruct (release_loop_refines i L' _ s [] [] wl pan R SC (le_n _) A) as (PF & n & s' & new & W & RN & LE & SE & PE & CE & GE).
+  split; auto. exists n, s'. simpl in W, SE. subst new. repeat split; auto.
 Qed.
 
 End Thm.
